@@ -233,6 +233,39 @@ func checkC05(P *Program, r *Result, tier string) {
 					_ = full
 				}
 			}
+			if cp == nil {
+				// the same effect written as an in-place append: buf = append(buf, bs[:n]...) with n ≤ cap−len proved
+				for _, st := range storesTo(fn, "buf") {
+					ap := builtinCall(st.Val, "append")
+					if ap == nil || !instrDominates(st, ret) || !isLoadOfField(fn, ap.Common().Args[0], "buf") {
+						continue
+					}
+					base := fa.sliceDesc(ap.Common().Args[0])
+					src := fa.sliceDesc(ap.Common().Args[1])
+					if base == nil || src == nil || base.Cap == nil || src.Root != ssa.Value(fn.Params[1]) {
+						continue
+					}
+					noRealloc := fa.prove(ineqLE(base.Len.add(src.Len), base.Cap), st.Block(), rootCtx)
+					fromStart := fa.proveEq(src.Off, linConst(0), st.Block())
+					count := fa.proveEq(fa.expand(ret.Results[0]), src.Len, ret.Block())
+					// n = min(len(bs), cap−len): either everything, or exactly the room that is left
+					full := fa.prove(ineqLE(src.Len, bs.Len), st.Block(), rootCtx)
+					// … and it is one of the two, on every way the count is computed
+					if id, isAtom := singleAtom(src.Len); isAtom && fa.A.at(id).Phi != nil {
+						a := fa.A.at(id)
+						for i := range a.Phi.Block.Preds {
+							in := a.Phi.In(i)
+							if !in.equal(bs.Len) && !in.equal(base.Cap.sub(base.Len)) {
+								full = false
+							}
+						}
+					} else if !src.Len.equal(bs.Len) {
+						full = false
+					}
+					ok = noRealloc && fromStart && full
+					ext = count
+				}
+			}
 			r.add("CURSOR", shortName(fn), "return", "payload copied into buf[len:cap] from bs[0:]", P.pos(instrPos(ret)), ok, "")
 			r.add("CURSOR", shortName(fn), "return", "buffer extended by exactly the copied count", P.pos(instrPos(ret)), ext, "")
 		}
@@ -299,7 +332,10 @@ func checkC05(P *Program, r *Result, tier string) {
 					}
 				}
 				var cur *SliceDesc
-				if rc.ver != nil {
+				if rc.ver != nil && rc.ver.Kind == mStore {
+					cur = fa.sliceDesc(rc.ver.Val)
+				}
+				if rc.ver != nil && cur == nil {
 					for _, b := range fn.Blocks {
 						for _, x := range b.Instrs {
 							if ld, ok := x.(*ssa.UnOp); ok && ld.Op == token.MUL && recvFieldOf(fn, ld.X) == "buf" && cur == nil {
@@ -402,55 +438,74 @@ func checkC05(P *Program, r *Result, tier string) {
 				}
 			}
 			r.add("STICKY", shortName(fn), "store", "a sink error is stored in w.err on the path that returns it", P.pos(instrPos(w)), stored, "")
-			// STITCH: every copy before the sink call
+			// STITCH: every copy before the sink call — in Flush itself or in a helper on the same receiver that Flush
+			// calls (and that therefore completes) before the sink call
 			stitch := false
 			detail := "no stitching loop found"
+			type place struct {
+				f      *ssa.Function
+				before func(cp *ssa.Call) bool
+			}
+			places := []place{{fn, func(cp *ssa.Call) bool { return instrDominatesLoopExit(cp, w) }}}
 			for _, c := range callsIn(fn) {
-				cp, ok := c.(*ssa.Call)
-				if !ok || builtinCall(cp, "copy") == nil {
+				hc, ok := c.(*ssa.Call)
+				cal := c.Common().StaticCallee()
+				if !ok || cal == nil || !inRepo(cal) || cal.Blocks == nil || len(c.Common().Args) == 0 || c.Common().Args[0] != ssa.Value(fn.Params[0]) {
 					continue
 				}
-				dst, src := fa.sliceDesc(cp.Common().Args[0]), fa.sliceDesc(cp.Common().Args[1])
-				if dst == nil || src == nil || !isLoadOfField(fn, dst.Root, "buf") {
-					continue
-				}
-				// source: an element of pendingBuf indexed by the range index
-				srcOK := false
-				if ld, isLd := src.Root.(*ssa.UnOp); isLd && ld.Op == token.MUL {
-					if ia, isIA := ld.X.(*ssa.IndexAddr); isIA && isLoadOfField(fn, ia.X, "pendingBuf") {
-						srcOK = rangeIndexFromZero(ia.Index)
+				dom := instrDominates(hc, w)
+				places = append(places, place{cal, func(*ssa.Call) bool { return dom }})
+			}
+			for _, pl := range places {
+				f := pl.f
+				faF := A.fa(f)
+				for _, c := range callsIn(f) {
+					cp, ok := c.(*ssa.Call)
+					if !ok || builtinCall(cp, "copy") == nil {
+						continue
 					}
-				}
-				sameOff := fa.proveEq(dst.Off, src.Off, cp.Block())
-				// the offset is a loop phi advanced by exactly the copied count
-				adv := false
-				if off, isAtom := singleAtom(dst.Off); isAtom {
-					a := fa.A.at(off)
-					if a.Phi != nil && a.Phi.Block.Dominates(cp.Block()) {
-						adv = true
-						for i, p := range a.Phi.Block.Preds {
-							in := a.Phi.In(i)
-							if a.Phi.Block.Dominates(p) {
-								if !in.equal(dst.Off.add(fa.expand(cp))) {
+					dst, src := faF.sliceDesc(cp.Common().Args[0]), faF.sliceDesc(cp.Common().Args[1])
+					if dst == nil || src == nil || !isLoadOfField(f, dst.Root, "buf") {
+						continue
+					}
+					// source: an element of pendingBuf indexed by the range index
+					srcOK := false
+					if ld, isLd := src.Root.(*ssa.UnOp); isLd && ld.Op == token.MUL {
+						if ia, isIA := ld.X.(*ssa.IndexAddr); isIA && isLoadOfField(f, ia.X, "pendingBuf") {
+							srcOK = rangeIndexFromZero(ia.Index)
+						}
+					}
+					sameOff := faF.proveEq(dst.Off, src.Off, cp.Block())
+					// the offset is a loop phi advanced by exactly the copied count
+					adv := false
+					if off, isAtom := singleAtom(dst.Off); isAtom {
+						a := faF.A.at(off)
+						if a.Phi != nil && a.Phi.Block.Dominates(cp.Block()) {
+							adv = true
+							for i, p := range a.Phi.Block.Preds {
+								in := a.Phi.In(i)
+								if a.Phi.Block.Dominates(p) {
+									if !in.equal(dst.Off.add(faF.expand(cp))) {
+										adv = false
+									}
+								} else if c0, isC := in.constVal(); !isC || c0.Sign() != 0 {
 									adv = false
 								}
-							} else if c0, isC := in.constVal(); !isC || c0.Sign() != 0 {
-								adv = false
 							}
 						}
 					}
-				}
-				before := instrDominatesLoopExit(cp, w)
-				stitch = srcOK && sameOff && adv && before
-				detail = ""
-				if !srcOK {
-					detail = "source is not pendingBuf[i] for the range index"
-				} else if !sameOff {
-					detail = "source and destination offsets differ"
-				} else if !adv {
-					detail = "the offset must start at 0 and advance by exactly the copied count"
-				} else if !before {
-					detail = "the stitching loop must complete before the sink call"
+					before := pl.before(cp)
+					stitch = srcOK && sameOff && adv && before
+					detail = ""
+					if !srcOK {
+						detail = "source is not pendingBuf[i] for the range index"
+					} else if !sameOff {
+						detail = "source and destination offsets differ"
+					} else if !adv {
+						detail = "the offset must start at 0 and advance by exactly the copied count"
+					} else if !before {
+						detail = "the stitching loop must complete before the sink call"
+					}
 				}
 			}
 			r.add("STITCH", shortName(fn), "loop", "parked buffers are copied in order, same offset on both sides, offset += copied, before the sink call", P.pos(fn.Pos()), stitch, detail)
